@@ -1,6 +1,5 @@
 //! C17 — hierarchical clustering returns a valid dendrogram built from closest pairs.
 
-use crate::build::{via_builder, Finish};
 use crate::model::*;
 use crate::observe::guarded;
 use crate::runner::*;
@@ -23,11 +22,12 @@ pub const NT: u32 = 96;
 
 thread_local! {
     static FLAT: Ontology = {
+        // loaded from own v3 bytes; every seventh term is flagged obsolete (must not matter)
         let mut f = Facts::default();
-        for i in 1..=NT {
-            f.terms.push(TermFact { id: i, name: format!("t{i}"), obsolete: false, replacement: None });
+        for i in 1..=NT.max(118) {
+            f.terms.push(TermFact { id: i, name: format!("t{i}"), obsolete: i % 7 == 3, replacement: None });
         }
-        via_builder(&f, Finish::Minimal).expect("flat ontology")
+        crate::build::via_binary(&f, 3).expect("flat ontology")
     };
 }
 
@@ -309,7 +309,7 @@ impl Property for C17 {
     }
     fn cases(&self, tier: Tier) -> u64 {
         match tier {
-            Tier::Quick => 600_000,
+            Tier::Quick => 400_000,
             Tier::Thorough => 3_000_000,
         }
     }
